@@ -61,7 +61,31 @@ def discharge(F, inst, ev, kind):
                 return "B-cap-lit", "String::<%s>::from(%r): the literal has %d bytes" % (m.group(1), lit, len(lit.encode()))
             return None, "heapless String::from(&str) panics when the text does not fit; argument is not a literal known to fit (%s into %s)" % (lit, tgt)
         return None, "cannot locate the conversion in typed HIR"
+    if kind == "dep-api:arbitrary::unstructured::Unstructured::<'a>::int_in_range":
+        # contract (arbitrary 1.x, int_in_range_impl): assert!(start <= end) -- the range must be non-empty
+        nodes = [x for x in node_at(fn, ev["sp"]) if x.get("k") == "mcall" and x.get("callee") == "arbitrary::unstructured::Unstructured::<'a>::int_in_range"]
+        if len(nodes) == 1 and nodes[0]["args"]:
+            r = H.strip_block(nodes[0]["args"][0])
+            if r.get("k") == "call" and r.get("callee") == "core::ops::range::RangeInclusive::<Idx>::new" and len(r["args"]) == 2:
+                lo, hi = (_const_int(F, a) for a in r["args"])
+                if lo is not None and hi is not None:
+                    if lo <= hi:
+                        return "B-range", "int_in_range(%d..=%d): constant bounds, non-empty in this configuration" % (lo, hi)
+                    return None, "int_in_range(%d..=%d): the range is empty in this configuration, arbitrary asserts start <= end" % (lo, hi)
+            return None, "int_in_range requires a non-empty range; the bounds are not constants of this configuration"
+        return None, "cannot locate the int_in_range call in typed HIR"
     return None, "no discharge rule for " + kind
+
+
+def _const_int(F, n):
+    n = H.strip_block(n)
+    v = H.lit(n)
+    if isinstance(v, int) and not isinstance(v, bool):
+        return v
+    if n.get("k") == "path" and (n.get("res") or {}).get("rk", "").startswith("Const") and n["res"].get("krate") == "ctap_types":
+        v = F.const_value(n["res"]["path"])
+        return v if isinstance(v, int) and not isinstance(v, bool) else None
+    return None
 
 
 def check_root(ctx, F, cfg, P, root_spec, local_rules=None, what=""):
